@@ -5,7 +5,7 @@
    it is tied to the code by the farm of ./check C19.  What no Gallina model exhibits —
    acceptance of the rendered text by the Go compiler — is observed there (partial).        *)
 From Coq Require Import List Bool String NArith.
-From GT Require Import IFaceModel IFaceNamesProofs IFaceEmbProofs IFaceRefProofs IFaceUnionProofs IFaceAliasProofs.
+From GT Require Import IFaceModel IFaceNamesProofs IFaceEmbProofs IFaceRefProofs IFaceUnionProofs IFaceAliasProofs IFaceParse IFaceParseProofs.
 Import ListNotations.
 Local Open Scope string_scope.
 
@@ -211,11 +211,64 @@ Theorem C19_render_injective : forall e local t1 t2 st1 st1' st2 st2' x st'',
   erase t1 = erase t2.
 Proof. exact render_injective. Qed.
 
+(* Rendering a type a second time — as ParamsFromSignatureTuple does for the type arguments of a
+   generic parameter type (Param.TypeArgNames) — right after the type (or any type containing its
+   packages) was rendered leaves the import table exactly as it is: after a type is rendered its
+   packages are in use, and a type whose packages are in use is rendered without a write. *)
+Theorem C19_render_twice : forall e t st u,
+  (forall pp, In pp (ty_pkgs u) -> In pp (ty_pkgs t)) ->
+  snd (extract e (snd (extract e st t)) u) = snd (extract e st t).
+Proof. exact extract_again. Qed.
+
 (* IncludePrivate adds exactly the unexported ones. *)
 Theorem C19_private_adds_unexported : forall emb t n, wf_tree t ->
   (In n (iface_names true emb t) <->
    In n (iface_names false emb t) \/ (In n (iface_names true emb t) /\ exported n = false)).
 Proof. exact private_adds_unexported. Qed.
+
+(* ================================================================== the rendered TEXT *)
+(* The text printed for a well-formed reference (names are Go identifiers) parses — with a
+   recursive-descent parser for exactly the rendered syntax (IFaceParse.parse: names, qualified
+   names, type arguments, *, [], [N], map[K]V, func(name T, name... T) results) — back to the tree
+   of the reference: printing loses nothing but the names of results. *)
+Theorem C19_text_parses : forall x, wf_x x -> parse (print x) = Some (to_pty x).
+Proof. exact parse_print_top. Qed.
+
+(* The parser is also right in the middle of a text: whatever may follow a type ("]", ",", ")" or
+   the end) is left over, untouched. *)
+Theorem C19_text_parses_prefix : forall x, wf_x x -> forall fuel rest, tsize x <= fuel -> follow rest ->
+  parse_ty fuel (print x ++ rest) = Some (to_pty x, rest).
+Proof. exact parse_print. Qed.
+
+(* Hence "every referenced type denotes the identical type" as a statement about the text: what
+   FindInterface renders for a type parses, and the parsed tree denotes the original type under the
+   active imports (basic: the table of predeclared basic type names, with which the reference
+   must agree — raw_okb). *)
+Theorem C19_text_denotes : forall e local basic t st x st' st'',
+  extract e st t = (x, st') -> extends st' st'' ->
+  wf_ty (e_self e) local t -> alias_injective (active st'') ->
+  wf_x x -> raw_okb local basic x = true ->
+  exists p, parse (print x) = Some p /\
+            denote_p (e_self e) local (active st'') basic p = Some (erase t).
+Proof. exact text_denotes. Qed.
+
+(* What extract renders is well-formed: if the names go/types hands over are Go identifiers (type
+   names, package names, the user's parameter names), and so are the import names of the file and
+   of packages.Package.Imports, every name in the rendered reference is one — on-demand import
+   names (name, name2, …) and generated parameter names included. *)
+Theorem C19_extract_wf : forall e, ident_env e -> forall t, ident_ty t ->
+  forall st x st', ident_tbl st -> extract e st t = (x, st') -> wf_x x /\ ident_tbl st'.
+Proof. exact extract_wf. Qed.
+
+(* ... so the statement about the text needs no hypothesis on the reference. *)
+Theorem C19_text_denotes_closed : forall e local basic t st x st' st'',
+  ident_env e -> ident_ty t -> ident_tbl st ->
+  extract e st t = (x, st') -> extends st' st'' ->
+  wf_ty (e_self e) local t -> alias_injective (active st'') ->
+  raw_okb local basic x = true ->
+  exists p, parse (print x) = Some p /\
+            denote_p (e_self e) local (active st'') basic p = Some (erase t).
+Proof. exact text_denotes_closed. Qed.
 
 (* ================================================================== interfaces that embed interfaces *)
 (* The method set of a named interface — what namedTypeToInterface lists through go/types for an
@@ -287,7 +340,7 @@ Example C19_example_embedded :
   iface_names true true tree_S1 = ["Own"] /\ iface_names_orig true true tree_S1 = ["Own"; "Foo"].
 Proof. split; [exact tree_S1_wf|]. vm_compute. auto. Qed.
 
-Definition ex_env := Env "ex.com/p" [("ex.com/sib/v2", "realname"); ("context", "context")] ["L"; "S"] true.
+Definition ex_env := Env "ex.com/p" [("ex.com/sib/v2", "realname"); ("context", "context")] ["L"; "S"] true [].
 Definition ex_table := calc_imports ex_env [("context", None); ("ex.com/sib/v2", None); ("ex.com/sib/ren", Some "rr")].
 Definition ex_ty :=
   TFunc [(PI "a" false false, TNamed (Some ("ex.com/sib/v2", "realname")) "T" []);
@@ -304,6 +357,29 @@ Example C19_example_typeref :
   denote "ex.com/p" (fun n => String.eqb n "L") (active st) x = Some (erase ex_ty).
 Proof.
   vm_compute. repeat split; auto. repeat constructor; simpl; intuition discriminate.
+Qed.
+
+Example C19_example_text :
+  let '(x, st) := extract ex_env ex_table ex_ty in
+  parse "func(a realname.T, arg0... rr.R) (map[string]*third.G[error, L], error)" = Some (to_pty x) /\
+  raw_okb (fun n => String.eqb n "L") is_basic_name x = true /\
+  denote_p "ex.com/p" (fun n => String.eqb n "L") (active st) is_basic_name (to_pty x) = Some (erase ex_ty).
+Proof. vm_compute. repeat split; reflexivity. Qed.
+
+Example C19_example_text_wf : wf_x (fst (extract ex_env ex_table ex_ty)).
+Proof.
+  vm_compute. repeat (constructor; try (intros ? [=]; subst); try (vm_compute; reflexivity); cbn [fst snd]).
+Qed.
+
+(* the hypotheses of C19_extract_wf / C19_text_denotes_closed hold of the example *)
+Example C19_example_identifiers : ident_env ex_env /\ ident_tbl ex_table /\ ident_ty ex_ty.
+Proof.
+  split; [|split].
+  - intros p n. unfold ex_env. simpl.
+    destruct (String.eqb p "ex.com/sib/v2"); [intros [= <-]; vm_compute; reflexivity|].
+    destruct (String.eqb p "context"); [intros [= <-]; vm_compute; reflexivity|discriminate].
+  - intros i Hi. vm_compute in Hi. repeat (destruct Hi as [<-|Hi]; [vm_compute; reflexivity|]). contradiction.
+  - unfold ex_ty. repeat (first [ match goal with |- user_valid _ => first [left; vm_compute; reflexivity | right; vm_compute; reflexivity] end | match goal with |- _ \/ _ => fail 1 end | constructor | split | right; vm_compute; reflexivity | left; vm_compute; reflexivity | intros ? ? [= <- <-]; vm_compute; reflexivity | intros ? ? [=] | vm_compute; reflexivity ]).
 Qed.
 
 Example C19_example_wf_ty : wf_ty "ex.com/p" (fun n => String.eqb n "L") ex_ty.
@@ -395,7 +471,13 @@ Print Assumptions C19_unused_name_fresh.
 Print Assumptions C19_alias_injective.
 Print Assumptions C19_interface_closed.
 Print Assumptions C19_alias_orig_refuted.
+Print Assumptions C19_text_parses.
+Print Assumptions C19_text_parses_prefix.
+Print Assumptions C19_text_denotes.
+Print Assumptions C19_extract_wf.
+Print Assumptions C19_text_denotes_closed.
 Print Assumptions C19_render_injective.
+Print Assumptions C19_render_twice.
 Print Assumptions C19_private_adds_unexported.
 Print Assumptions C19_iface_union_is_set.
 Print Assumptions C19_iface_union_identical.
